@@ -1,0 +1,85 @@
+// Licensed to Apache Software Foundation (ASF) under one or more contributor
+// license agreements. See the NOTICE file distributed with
+// this work for additional information regarding copyright
+// ownership. Apache Software Foundation (ASF) licenses this file to you under
+// the Apache License, Version 2.0 (the "License"); you may
+// not use this file except in compliance with the License.
+// You may obtain a copy of the License at
+//
+//     http://www.apache.org/licenses/LICENSE-2.0
+//
+// Unless required by applicable law or agreed to in writing,
+// software distributed under the License is distributed on an
+// "AS IS" BASIS, WITHOUT WARRANTIES OR CONDITIONS OF ANY
+// KIND, either express or implied.  See the License for the
+// specific language governing permissions and limitations
+// under the License.
+
+//go:build verif
+
+// Contracts for the verification harness (comment-only; compiled only with -tags verif).
+// Syntax: see /verif/DESIGN.md §2.2.
+
+package snapshot
+
+//@ property C05
+//
+// Reference accounting of snapshot transitions. rc is the (ghost) reference count of a snapshot object;
+// IncRef / DecRef are the only operations on it. cur is the (ghost) snapshot a manager currently publishes.
+//
+//@ type Snapshot
+//@   ghost rc int
+//@ type Manager
+//@   ghost cur Snapshot
+//
+//@ func Snapshot.IncRef
+//@   assumed interface method: the implementation increments the reference count by one
+//@   modifies recv.rc
+//@   ensures  recv.rc == old(recv.rc) + 1
+//@ func Snapshot.DecRef
+//@   assumed interface method: the implementation decrements the reference count by one (and frees at zero)
+//@   modifies recv.rc
+//@   ensures  recv.rc == old(recv.rc) - 1
+//@ func Manager.ReplaceSnapshot
+//@   assumed interface method (documented contract): publishes next and drops the manager's own reference on the old snapshot
+//@   modifies recv.cur
+//@   modifies recv.cur.rc
+//@   ensures  recv.cur == next
+//@   ensures  old(recv.cur) != nil ==> old(recv.cur).rc == old(old(recv.cur).rc) - 1
+//
+// Commit: publishes exactly once.
+//@ func Transition.Commit
+//@   mode int
+//@   requires t != nil
+//@   modifies t.committed
+//@   modifies t.manager.cur
+//@   modifies t.manager.cur.rc
+//@   ensures  t.committed
+//@   ensures  once: old(t.committed) ==> t.manager.cur == old(t.manager.cur) && old(t.manager.cur).rc == old(old(t.manager.cur).rc)
+//@   ensures  publish: !old(t.committed) ==> t.manager.cur == t.next
+//
+// Rollback: before a commit it gives back the pin on current and the prepared next, each exactly once;
+// after a commit it must not touch any reference count (Release gives back the pin on current).
+//@ func Transition.Rollback
+//@   mode int
+//@   requires t != nil
+//@   modifies t.next.rc
+//@   modifies t.current.rc
+//@   ensures  after-commit: old(t.committed) ==> t.current.rc == old(t.current.rc) && t.next.rc == old(t.next.rc)
+//@   ensures  before-commit-distinct: !old(t.committed) && t.next != t.current && t.next != nil && t.current != nil ==> t.next.rc == old(t.next.rc) - 1 && t.current.rc == old(t.current.rc) - 1
+//@   ensures  nil-next: !old(t.committed) && t.next == nil && t.current != nil ==> t.current.rc == old(t.current.rc) - 1
+//@   ensures  nil-current: !old(t.committed) && t.current == nil && t.next != nil ==> t.next.rc == old(t.next.rc) - 1
+//@   ensures  flag: t.committed == old(t.committed)
+//
+// reset (called by Release): after a commit the pin taken in NewTransition is given back exactly once; otherwise nothing.
+//@ func Transition.reset
+//@   mode int
+//@   requires t != nil
+//@   modifies t.current.rc
+//@   modifies t.manager
+//@   modifies t.current
+//@   modifies t.next
+//@   modifies t.committed
+//@   ensures  pin: old(t.committed) && old(t.current) != nil ==> old(t.current).rc == old(old(t.current).rc) - 1
+//@   ensures  nopin: !old(t.committed) && old(t.current) != nil ==> old(t.current).rc == old(old(t.current).rc)
+//@   ensures  cleared: !t.committed && t.current == nil && t.next == nil
